@@ -407,6 +407,7 @@ func c20SCCase(o *c20Out, idx int, r *c20Rand) {
 		e.mu.Unlock()
 		e.inbound.mu.Lock()
 		e.inbound.nonblock = true
+		e.inbound.consumed = 0 // offsets below count data-phase bytes only
 		e.inbound.mu.Unlock()
 	}
 	if ea.inbound.Len() != 0 || eb.inbound.Len() != 0 || len(ra.sc.recvBuffer) != 0 || len(rb.sc.recvBuffer) != 0 {
@@ -527,6 +528,15 @@ func c20SCCase(o *c20Out, idx int, r *c20Rand) {
 		}
 		if last && r.Chance(1, 2) && !d.closed {
 			toks = append(toks, "C")
+		}
+		if d.closed {
+			toks = nil // nothing arrives on a closed stream
+		}
+		for i, t := range toks {
+			if t == "C" {
+				toks = toks[:i+1]
+				break
+			}
 		}
 		added := c20Forward(o, d, dirs[rdr], ends[rdr].inbound, toks)
 		step++
@@ -1242,6 +1252,10 @@ func c20MsgSize(r *c20Rand, maxp, recvcap int, allowOver bool, allowEmpty bool) 
 		if sz > 40000 {
 			sz = 1 + r.Intn(40000)
 		}
+		if sz > 150*maxp {
+			// keep the number of packets per message moderate
+			sz = 1 + r.Intn(150*maxp)
+		}
 		if sz < 0 {
 			sz = 0
 		}
@@ -1545,7 +1559,7 @@ func c20MDCase(o *c20Out, idx int, r *c20Rand) {
 			o.Op(fmt.Sprintf("Q %d", ci), fmt.Sprintf("Q qsize=%d cansend=%s", ch.loadSendQueueSize(), map[bool]string{true: "1", false: "0"}[ch.canSend()]))
 		}
 	}
-	for k := 0; k < 3000; k++ {
+	for k := 0; k < 20000; k++ {
 		if doP() {
 			break
 		}
